@@ -59,10 +59,11 @@ impl AdtMetadata {
         let removed_fields = evolution_steps
             .iter()
             .filter_map(|evolution| {
-                if let Evolution::FieldRemoved { name } = evolution {
-                    Some(name.clone())
-                } else {
-                    None
+                match evolution {
+                    Evolution::FieldRemoved { name } | Evolution::FieldMadeTransient { name } => {
+                        Some(name.clone())
+                    }
+                    _ => None,
                 }
             })
             .collect();
